@@ -52,7 +52,7 @@ def draw_env(rng, tool, force_stdin=False):
         e = Env(ik, ok, rng.choice(CHUNK_KINDS), rng.choice(CHUNK_KINDS),
                 rng.getrandbits(32), rng.getrandbits(32), pre,
                 unbuf=(ok != "path" and rng.random() < 0.1),
-                names=rng.choice((0, 0, 0, 0, 1, 2, 3, 4, 5, 6, 7)),
+                names=rng.choice((0, 0, 0, 0, 1, 2, 3, 4, 5, 6, 7, 8, 9, 10, 11)),
                 spell=rng.getrandbits(30) if rng.random() < 0.3 else 0,
                 late_opts=rng.random() < 0.15,
                 inplace=(tool == "veftopng" and rng.random() < 0.2),
@@ -612,7 +612,15 @@ def real_cli(tool, opts, data, env, tmpdir):
     if env.inplace:
         inp, si = outp, so
     feeder = None
-    if env.in_kind == "path":
+    from .decsim import SYMLINK_STYLE, SYMLINK_TARGET
+    if env.in_kind == "path" and env.names % len(NAME_STYLES) == SYMLINK_STYLE and not env.inplace:
+        tgt = os.path.join(os.path.dirname(inp), SYMLINK_TARGET)
+        os.makedirs(os.path.dirname(tgt), exist_ok=True)
+        with open(tgt, "wb") as f:
+            f.write(data)
+        os.symlink(SYMLINK_TARGET, inp)
+        pos.append(inp)
+    elif env.in_kind == "path":
         with open(inp, "wb") as f:
             f.write(data)
         pos.append(inp if si.startswith("/") else si)
